@@ -279,6 +279,9 @@ Compute(c) ==
                    proper    |-> ProperOrthogonalHolds(d, R, DR),
                    embedding |-> EmbeddingHolds(d, qs, R),
                    mainaxis  |-> MainAxisScaleHolds(d, c.es, ax, I),
+                   \* pipelines work on Iso.x; what they hand to user functions of the ORIGINAL
+                   \* coordinates (drift functions of universal kriging) is Aniso.(Iso.x) = x
+                   drift     |-> RMatMul(A, IX) = X,
                    timeaxis  |-> IF Mode = "tmp" THEN TimeAxisHolds(d, c.qs, c.es, I, A) ELSE TRUE ] ]
 
 (* "giv": the elementary rotations themselves (one plane, one angle) *)
@@ -304,6 +307,7 @@ ProperOrthogonal == out.chk.proper
 EmbeddingOK      == out.chk.embedding
 MainAxisScaleOK  == out.chk.mainaxis
 TimeAxisOK       == out.chk.timeaxis
+DriftCoordsOK    == out.chk.drift
 
 GivOK            == out.chk.convention /\ out.chk.single
 
